@@ -1,11 +1,59 @@
 package loader
 
-import "github.com/jsightapi/jsight-schema-core/notations/jschema/ischema"
+import (
+	"sort"
 
+	"github.com/jsightapi/jsight-schema-core/notations/jschema/ischema"
+)
+
+// AddUnnamedTypes makes the types of the registered types (the unnamed types of
+// their "or" rules and the types registered on them), at any depth, known to
+// the root schema.
 func AddUnnamedTypes(rootSchema *ischema.ISchema) {
-	for _, typ := range rootSchema.TypesList() {
-		for unnamed, unnamedTyp := range typ.Schema.TypesList() {
-			rootSchema.AddType(unnamed, unnamedTyp)
+	// The types are collected before they are added: a range over a map that
+	// grows visits the new entries at random.
+	found := make(map[string]ischema.Type)
+	visited := make(map[*ischema.ISchema]struct{})
+
+	var collect func(s *ischema.ISchema)
+	collect = func(s *ischema.ISchema) {
+		if s == nil {
+			return
+		}
+		if _, ok := visited[s]; ok {
+			return
+		}
+		visited[s] = struct{}{}
+
+		tt := s.TypesList()
+		names := make([]string, 0, len(tt))
+		for name := range tt {
+			names = append(names, name)
+		}
+		sort.Strings(names)
+
+		for _, name := range names {
+			if _, ok := found[name]; !ok {
+				found[name] = tt[name]
+			}
+			collect(tt[name].Schema)
+		}
+	}
+
+	visited[rootSchema] = struct{}{}
+	own := rootSchema.TypesList()
+	names := make([]string, 0, len(own))
+	for name := range own {
+		names = append(names, name)
+	}
+	sort.Strings(names)
+	for _, name := range names {
+		collect(own[name].Schema)
+	}
+
+	for name, typ := range found {
+		if _, ok := own[name]; !ok {
+			rootSchema.AddType(name, typ)
 		}
 	}
 }
